@@ -491,6 +491,7 @@ func init() {
 		run.Set("explanation", "unbounded BFS over the real clusterState (owner) and a real observer state; states are de-duplicated after replacing version numbers by their rank (the code only compares versions and takes max+1), which makes the reachable space finite; reference model = map + counter; every discovered state additionally synchronises a stale and a fresh observer and compares live keys")
 		fmt.Printf("  C17: states=%d transitions=%d depth=%d exhaustive=%v %s\n", res.States, res.Transitions, res.DepthCompleted, res.Exhaustive, res.CapHit)
 		run.Set("bulk_key_cases", c17Bulk(run))
+		run.Set("join_stream_cases", c17JoinStream(run))
 		schedPass(run)
 		return run.Finish()
 	})
